@@ -3,6 +3,7 @@ CONSTANT MaxT = 2
 CONSTANT MaxT2 = 1
 CONSTANT MaxH = 2
 VIEW View
+INVARIANT RolesHaveColon
 INVARIANT AllPartition
 INVARIANT AllImplicitTop
 INVARIANT EdgesAreVariableTargets
